@@ -28,6 +28,7 @@ import (
 	configv1 "github.com/istio-ecosystem/authservice/config/gen/go/v1"
 	oidcv1 "github.com/istio-ecosystem/authservice/config/gen/go/v1/oidc"
 	"github.com/istio-ecosystem/authservice/internal"
+	"github.com/istio-ecosystem/authservice/internal/authz"
 	"github.com/istio-ecosystem/authservice/internal/k8s"
 	"github.com/istio-ecosystem/authservice/internal/oidc"
 	"github.com/istio-ecosystem/authservice/internal/server"
@@ -214,6 +215,7 @@ type World struct {
 	chainSID         map[int]string
 	lostReply        map[int]bool
 	seenIdent        map[string]string
+	handlers         map[*Replica]map[int]authz.Handler
 	k8sMode          bool
 	K8s              client.Client
 	k8sRef           map[string]string // secret name -> value as of the last completed reconcile
@@ -473,6 +475,9 @@ func (w *World) Boot() *Replica {
 		fac = &yieldFactory{w: w, inner: r.sessions}
 	}
 	r.filter = server.NewExtAuthZFilter(r.cfg, r.tlsPool, jw, fac)
+	if w.Spec.HandlerMode {
+		w.buildSharedHandlers()
+	}
 	return r
 }
 
@@ -1084,7 +1089,54 @@ func (w *World) invoke(rec *CheckRec, req *envoy.CheckRequest) {
 		rec.Err = errors.New("no replica")
 		return
 	}
-	rec.Resp, rec.Err = w.Rep.filter.Check(context.Background(), req)
+	rec.Resp, rec.Err = w.dispatch(rec.Filter, req)
+}
+
+// dispatch sends a request into the replica: through ExtAuthZFilter.Check (the service's API), or — in
+// handler mode, for single-filter worlds without trigger rules — through ONE long-lived oidcHandler per
+// filter built with the same constructor Check uses (component level: whatever a handler or its
+// identifier generator keeps between requests is then shared, as the handler's own tests share it).
+func (w *World) dispatch(fi int, req *envoy.CheckRequest) (*envoy.CheckResponse, error) {
+	if !w.Spec.HandlerMode || fi < 0 {
+		return w.Rep.filter.Check(context.Background(), req)
+	}
+	h, err := w.sharedHandler(fi)
+	if err != nil {
+		// (e.g. the provider was unreachable when the handler was to be built) fall back to the service's API
+		return w.Rep.filter.Check(context.Background(), req)
+	}
+	resp := &envoy.CheckResponse{}
+	if err := h.Process(context.Background(), req, resp); err != nil {
+		return nil, err
+	}
+	return resp, nil
+}
+
+func (w *World) sharedHandler(fi int) (authz.Handler, error) {
+	if h := w.handlers[w.Rep][fi]; h != nil {
+		return h, nil
+	}
+	return nil, errors.New("sim: no shared handler for this filter")
+}
+
+// buildSharedHandlers creates the long-lived handlers at boot (sequentially: no lock may be held across a
+// scheduling point in the bubble).
+func (w *World) buildSharedHandlers() {
+	var fac oidc.SessionStoreFactory = &spyFactory{w: w, inner: w.Rep.sessions}
+	var jw oidc.JWKSProvider = &spyJWKS{w: w, inner: w.Rep.jwks}
+	if w.Lean {
+		fac, jw = &yieldFactory{w: w, inner: w.Rep.sessions}, w.Rep.jwks
+	}
+	if w.handlers == nil {
+		w.handlers = map[*Replica]map[int]authz.Handler{}
+	}
+	w.handlers[w.Rep] = map[int]authz.Handler{}
+	for _, f := range w.Filters {
+		h, err := authz.NewOIDCHandler(f.Cfg, w.Rep.tlsPool, jw, fac, oidc.Clock{}, oidc.NewRandomGenerator())
+		if err == nil {
+			w.handlers[w.Rep][f.Idx] = h
+		}
+	}
 }
 
 func hdrVals(hs []*corev3.HeaderValueOption, key string) []string {
